@@ -1,12 +1,20 @@
 #!/bin/bash
 # Run every seeded change against the check of the property it breaks (scratch worktree + VERIF_REPO, /repo untouched).
 # usage: tools/detect_matrix.sh [seeds, default 0,1] [ids...]   -> appends to seeded/detection_matrix.log
+# A seeded change whose original patch no longer applies because a later `fix:` commit rewrote the same lines carries a
+# patch_rebased_<commit>.diff that re-introduces the same change on the current tree; that one is applied then.
 seeds=${1:-0,1}; shift
 ids=${@:-$(ls /verif/seeded | grep '^C[0-9]*-[0-9]*$' | sort -V)}
 out=/verif/seeded/detection_matrix.log
 for r in $ids; do
   p=${r%-*}
+  patch=/verif/seeded/$r/patch.diff
+  if ! git -C /repo apply --check $patch 2>/dev/null; then
+    alt=$(ls /verif/seeded/$r/patch_rebased_*.diff 2>/dev/null | tail -1)
+    [ -n "$alt" ] && patch=$alt
+  fi
   echo "### $r" >> $out
-  /venv/bin/python /verif/tools/try_patch.py /verif/seeded/$r/patch.diff $p --seeds $seeds 2>&1 | grep -v "^WARN" | grep "^C1\|class=\|DETECTED\|MISSED\|PATCH" | cut -c1-300 >> $out
+  echo "patch=$(basename $patch) repo=$(git -C /repo log --format=%h -1) verif=$(git -C /verif log --format=%h -1)" >> $out
+  /venv/bin/python /verif/tools/try_patch.py $patch $p --seeds $seeds 2>&1 | grep -v "^WARN" | grep "^C1\|class=\|DETECTED\|MISSED\|PATCH" | cut -c1-300 >> $out
 done
 echo "finished $(date -u +%FT%TZ)" >> $out
